@@ -269,10 +269,12 @@ func driveSys(cfg *hx.RunCfg) error {
 					coqRoute(sp.rt, observedOrder(sp.rt.headers, seen.hdrs), observedOrder(sp.rt.respHeaders, got.hdrs)),
 					coqReq(rg, ip, false), S(reencQuery(rg.query)), coqSeen(seen), coqScripted(resp, rg.req.method), coqGotFor(got, resp))
 			} else {
-				// the plugin's headers are applied after the route's: order the route's by what a plugin-free
-				// observation cannot tell -> sorted (the generator gives routes of plugin proxies no colliding keys)
+				// the route's configured headers are applied by frps, the plugin's after them by frpc.  The visiting order
+				// of each map (it matters when two keys share a canonical form) is reconstructed from the value the
+				// backend saw for that key; where the plugin overrides the key the route's order is unobservable and
+				// irrelevant
 				cs = fmt.Sprintf("CChain (%s) %s (%s) None (%s) %s (%s) (%s) (%s)",
-					coqRoute(sp.rt, observedOrder(sp.rt.headers, nil), observedOrder(sp.rt.respHeaders, got.hdrs)), sp.coqP,
+					coqRoute(sp.rt, observedOrder(sp.rt.headers, seen.hdrs), observedOrder(sp.rt.respHeaders, got.hdrs)), sp.coqP,
 					coqPopts(sp.po, observedOrder(sp.po.headers, seen.hdrs)),
 					coqReq(rg, ip, false), S(reencQuery(rg.query)), coqSeen(seen), coqScripted(resp, rg.req.method), coqGotFor(got, resp))
 			}
@@ -403,7 +405,8 @@ func driveSys(cfg *hx.RunCfg) error {
 			val[i] = "abcdefghijklmnopqrstuvwxyz0123456789"[g.Intn(36)]
 		}
 		req := simpleGet("s1.c02.test", "/big-head")
-		req.hdrs = append(req.hdrs, hdr{"Cookie", "session=" + string(val)}, hdr{"X-After", "1"})
+		// a header name no generated route configuration sets (route web1 may declare Cookie, which would replace it)
+		req.hdrs = append(req.hdrs, hdr{"X-Big-Token", "session=" + string(val)}, hdr{"X-After", "1"})
 		headBytes := len("GET /big-head HTTP/1.1\r\nHost: s1.c02.test\r\n\r\n")
 		for _, kv := range req.hdrs {
 			headBytes += len(kv[0]) + len(kv[1]) + 4
@@ -418,7 +421,7 @@ func driveSys(cfg *hx.RunCfg) error {
 		seenVal := ""
 		if sn := be.waitSeen(time.Second); sn != nil && sn.target == "/big-head" {
 			for _, kv := range sn.hdrs {
-				if strings.EqualFold(kv[0], "Cookie") {
+				if strings.EqualFold(kv[0], "X-Big-Token") {
 					seenVal = kv[1]
 				}
 			}
@@ -431,7 +434,7 @@ func driveSys(cfg *hx.RunCfg) error {
 		cases = append(cases, cs)
 		st.dist["big-head:"+bucket(n)]++
 		if status != 200 || seenVal != "session="+string(val) {
-			st.fail("impl:large-request-head-not-forwarded", fmt.Sprintf("a well-formed request with a %d-byte head through vhostHTTPPort: status %d, backend saw the Cookie header: %v", headBytes, status, seenVal != ""), cs)
+			st.fail("impl:large-request-head-not-forwarded", fmt.Sprintf("a well-formed request with a %d-byte head through vhostHTTPPort: status %d, backend saw the large header: %v", headBytes, status, seenVal != ""), cs)
 		}
 	}
 
